@@ -8,7 +8,7 @@
 //! certificate was issued by which CA is known *by construction* (the harness
 //! creates every CA, leaf and self-signed certificate itself with rcgen).
 //!
-//! Four passes:
+//! Five passes:
 //!  1. `matrix`  – subject client x subject server, the full product of the dimensions;
 //!  2. `probe`   – a harness-owned rustls client (TLS 1.2 and 1.3, verification off,
 //!     recording whether the server sent a CertificateRequest) against every subject
@@ -17,7 +17,9 @@
 //!     the first connection kept open across the reload;
 //!  4. `client-name` – the crate's real client loop (`client::client_main_inner`) over loopback
 //!     TCP against a harness listener: the name it verifies / sends as SNI is the documented
-//!     choice `--tls-server-name` > `--hostname` > URL host.
+//!     choice `--tls-server-name` > `--hostname` > URL host;
+//!  5. `signal-reload` – the real `server::server_main` on loopback TCP; histories of rewriting its live
+//!     certificate/key files (well-formed or not) and raising SIGUSR1, watched by a harness TLS client.
 
 use crate::Args;
 use crate::report::Report;
@@ -1027,6 +1029,368 @@ async fn run_bad_ca_case(pki: &Pki, c: &BadCaCase, sink: &Sink<'_>, counters: &C
 }
 
 // ---------------------------------------------------------------------------------------
+// Reload histories through SIGUSR1 on a running `server_main`
+//
+// The run-time path of the real server: `server::server_main` installs a SIGUSR1 task that re-reads the
+// `--tls-cert` / `--tls-key` files. Each step of a history rewrites those files, raises SIGUSR1 and looks at
+// the certificate a NEW loopback-TCP TLS connection is shown. Reference: the identity in force is the last
+// GOOD one written (a failed reload leaves the previous identity in place and does not stop later reloads
+// from taking effect); the connection made before the first reload stays usable throughout.
+//
+// SIGUSR1 is process-wide, so these histories run strictly one after the other (one job), each in a runtime
+// of its own that is dropped at the end (which removes that server's listener and signal task).
+// ---------------------------------------------------------------------------------------
+
+const SIG_ALPHABET: [&str; 4] = ["good-B", "good-A", "bad-key", "bad-cert"];
+/// how long a new identity may take to show up after SIGUSR1
+const SIG_APPLY_DEADLINE: Duration = Duration::from_secs(3);
+/// fixed wait before looking when the identity is expected NOT to change
+const SIG_SETTLE: Duration = Duration::from_millis(300);
+/// how long the server may take to accept its first TLS connection
+const SIG_START_DEADLINE: Duration = Duration::from_secs(6);
+const SIG_START_ATTEMPTS: usize = 4;
+
+#[derive(Clone, Debug, PartialEq, Eq, Hash)]
+struct SigCase {
+    alg: String,
+    history: Vec<String>,
+    client_ca: bool,
+}
+
+impl SigCase {
+    fn to_json(&self) -> Value {
+        json!({"kind": "signal-reload", "alg": self.alg, "history": self.history, "client_ca": self.client_ca,
+               "start_identity": "A = trusted-ca/localhost", "identity_b": "B = trusted-ca-2/localhost",
+               "step": "rewrite the live --tls-cert/--tls-key files as named (bad-key: key file truncated, bad-cert: certificate file is not PEM), raise SIGUSR1, open a new TLS connection to the running server_main"})
+    }
+    fn from_json(v: &Value) -> Self {
+        let history: Vec<String> = v["history"].as_array().expect("replay: history").iter().map(|s| s.as_str().expect("replay: history entry").to_string()).collect();
+        for h in &history {
+            assert!(SIG_ALPHABET.contains(&h.as_str()), "replay: unknown history step {h}");
+        }
+        Self { alg: v["alg"].as_str().expect("replay: alg").to_string(), history, client_ca: v["client_ca"].as_bool().unwrap_or(false) }
+    }
+}
+
+/// Quick: every history of length 1..=2, and of length 3 those whose first step is a failing one and whose
+/// last step is a well-formed one, plus [good-B, bad-key, good-A] (the fixed 300 ms waits are sequential; this
+/// keeps the pass at about 20 s). Thorough: every history of length 1..=4 (first algorithm), and every history of
+/// length 1..=2 with a client CA configured and for each further key algorithm.
+fn sig_domain(algs: &[&str], thorough: bool) -> Vec<SigCase> {
+    fn all(len: usize) -> Vec<Vec<String>> {
+        let mut v: Vec<Vec<String>> = vec![vec![]];
+        for _ in 0..len {
+            v = v.into_iter().flat_map(|h| SIG_ALPHABET.iter().map(move |s| h.iter().cloned().chain([(*s).to_string()]).collect::<Vec<String>>())).collect();
+        }
+        v
+    }
+    let mut out = Vec::new();
+    let first = algs[0];
+    let max = if thorough { 4 } else { 3 };
+    for len in 1..=max {
+        for h in all(len) {
+            let keep = thorough || len < 3 || (h[0].starts_with("bad-") && h[2].starts_with("good-")) || h == ["good-B", "bad-key", "good-A"];
+            if keep {
+                out.push(SigCase { alg: first.into(), history: h, client_ca: false });
+            }
+        }
+    }
+    if thorough {
+        for len in 1..=2 {
+            for h in all(len) {
+                out.push(SigCase { alg: first.into(), history: h.clone(), client_ca: true });
+                for alg in &algs[1..] {
+                    out.push(SigCase { alg: (*alg).into(), history: h.clone(), client_ca: false });
+                }
+            }
+        }
+    }
+    out
+}
+
+/// Make sure tokio's process-wide SIGUSR1 handler is installed (tokio never uninstalls it) before anything
+/// in this process raises that signal: its default action would kill the process.
+fn install_sigusr1_guard() -> Result<(), String> {
+    static DONE: std::sync::OnceLock<Result<(), String>> = std::sync::OnceLock::new();
+    DONE.get_or_init(|| {
+        let rt = runtime();
+        match rt.block_on(async { tokio::signal::unix::signal(tokio::signal::unix::SignalKind::user_defined1()) }) {
+            Ok(sig) => {
+                // keep one listener registered for ever
+                let _: &'static mut tokio::signal::unix::Signal = Box::leak(Box::new(sig));
+                Ok(())
+            }
+            Err(e) => Err(format!("cannot install a SIGUSR1 listener: {e}")),
+        }
+    })
+    .clone()
+}
+
+/// The disposition of SIGUSR1 is a handler (neither "terminate" nor "ignore").
+fn sigusr1_has_handler() -> bool {
+    // SAFETY: querying the current disposition with a null new action has no side effects; `old` is a valid out-pointer.
+    unsafe {
+        let mut old: libc::sigaction = std::mem::zeroed();
+        libc::sigaction(libc::SIGUSR1, std::ptr::null(), &mut old) == 0 && old.sa_sigaction != libc::SIG_DFL && old.sa_sigaction != libc::SIG_IGN
+    }
+}
+
+fn raise_sigusr1() -> bool {
+    // SAFETY: plain libc call; delivered to the calling thread, where tokio's handler only sets a flag and writes to a pipe.
+    unsafe { libc::raise(libc::SIGUSR1) == 0 }
+}
+
+type TcpTls = tokio_rustls::client::TlsStream<tokio::net::TcpStream>;
+
+/// Harness-owned client for loopback TCP: accepts any server certificate, no session resumption (every
+/// connection is a full handshake, so the certificate seen is the one the server presents NOW).
+fn sig_client_config(pki: &Pki, with_client_cert: bool) -> Arc<ClientConfig> {
+    let prov = provider();
+    let b = ClientConfig::builder_with_provider(prov.clone()).with_safe_default_protocol_versions().expect("protocol versions").dangerous().with_custom_certificate_verifier(Arc::new(AcceptAnyServerCert(prov)));
+    let mut cfg = if with_client_cert {
+        let id = pki.client("client-ca").expect("client identity");
+        b.with_client_auth_cert(vec![CertificateDer::from(id.cert_der.clone())], PrivateKeyDer::Pkcs8(PrivatePkcs8KeyDer::from(id.key_der.clone()))).expect("client certificate")
+    } else {
+        b.with_no_client_auth()
+    };
+    cfg.resumption = rustls::client::Resumption::disabled();
+    Arc::new(cfg)
+}
+
+/// One new connection: TCP connect, TLS handshake, the end-entity certificate the server presented.
+async fn tcp_observe(port: u16, cfg: &Arc<ClientConfig>) -> Result<(Vec<u8>, TcpTls), String> {
+    let fut = async {
+        let tcp = tokio::net::TcpStream::connect(("127.0.0.1", port)).await.map_err(|e| format!("connect: {e}"))?;
+        let s = tokio_rustls::TlsConnector::from(cfg.clone()).connect(ServerName::try_from("localhost").expect("name"), tcp).await.map_err(|e| format!("TLS handshake: {e}"))?;
+        let der = s.get_ref().1.peer_certificates().and_then(|c| c.first().map(|x| x.to_vec())).ok_or_else(|| "no peer certificate".to_string())?;
+        Ok((der, s))
+    };
+    tokio::time::timeout(Duration::from_secs(2), fut).await.unwrap_or_else(|_| Err("no handshake within 2 s".into()))
+}
+
+static SIG_SEQ: AtomicU64 = AtomicU64::new(0);
+
+struct SigResult {
+    facts: Facts,
+    /// the history could not be executed for reasons that are not the subject's (no port, no signal handler)
+    machinery: Option<String>,
+}
+
+async fn run_sig_case(pki: &Pki, c: &SigCase, sink: &Sink<'_>, counters: &Counters) -> Result<SigResult, String> {
+    use rusty_penguin_lib::arg::ServerArgs;
+    use std::time::Instant;
+    catch(async {
+        let mut facts: Facts = Vec::new();
+        let replay = c.to_json();
+        let ida = pki.server("trusted-ca", "localhost");
+        let idb = pki.server("trusted-ca-2", "localhost");
+        let label = |der: &[u8]| if der == ida.cert_der.as_slice() { "A" } else if der == idb.cert_der.as_slice() { "B" } else { "other" };
+        // live files of this history only (a distinct pair per execution)
+        let tag = format!("{}/sig-{}", pki.dir_path, SIG_SEQ.fetch_add(1, Ordering::Relaxed));
+        let live_cert = format!("{tag}.cert.pem");
+        let live_key = format!("{tag}.key.pem");
+        let ccfg = sig_client_config(pki, c.client_ca);
+
+        // ---- start the real server; the first successful TLS connection is kept for the whole history
+        let mut started = None;
+        let mut last_fail = String::new();
+        'attempts: for _ in 0..SIG_START_ATTEMPTS {
+            write(&live_cert, &ida.cert_pem);
+            write(&live_key, &ida.key_pem);
+            let lease = super::c01_env::lease_port(false);
+            let args: &'static ServerArgs = Box::leak(Box::new(ServerArgs {
+                host: vec!["127.0.0.1".to_string()],
+                port: vec![lease.port],
+                not_found_resp: "404".to_string(),
+                timeout: penguin_mux::timing::OptionalDuration::from_secs(60),
+                tls_cert: Some(live_cert.clone()),
+                tls_key: Some(live_key.clone()),
+                tls_ca: c.client_ca.then(|| pki.ca_client.path.clone()),
+                ..Default::default()
+            }));
+            let task = tokio::spawn(rusty_penguin_lib::server::server_main(args));
+            let deadline = Instant::now() + SIG_START_DEADLINE;
+            loop {
+                if task.is_finished() {
+                    match task.await {
+                        Ok(r) => {
+                            let text = match r {
+                                Ok(()) => "server_main returned Ok(())".to_string(),
+                                Err(e) => format!("server_main returned Err: {e}"),
+                            };
+                            if text.contains("os error 98") || text.contains("Address already in use") || text.contains("Address in use") {
+                                last_fail = text; // lost the race for the port: take another one
+                                continue 'attempts;
+                            }
+                            sink.viol("sigreload.server-did-not-start".into(), format!("server_main with a well-formed certificate/key{} ended at once: {text}; {c:?}", if c.client_ca { " and client CA" } else { "" }), replay.clone());
+                            facts.push(("server.started".into(), json!(false)));
+                            return SigResult { facts, machinery: None };
+                        }
+                        Err(je) => {
+                            let text = if je.is_panic() { panic_text(&*je.into_panic()) } else { je.to_string() };
+                            sink.viol("sigreload.panic".into(), format!("server_main panicked while starting: {text}; {c:?}"), replay.clone());
+                            facts.push(("server.started".into(), json!(false)));
+                            return SigResult { facts, machinery: None };
+                        }
+                    }
+                }
+                match tcp_observe(lease.port, &ccfg).await {
+                    Ok((der, s)) => {
+                        started = Some((task, lease, der, s));
+                        break 'attempts;
+                    }
+                    Err(e) => last_fail = format!("no TLS connection to the server within {SIG_START_DEADLINE:?} (last: {e})"),
+                }
+                if Instant::now() >= deadline {
+                    task.abort();
+                    continue 'attempts;
+                }
+                tokio::time::sleep(Duration::from_millis(25)).await;
+            }
+        }
+        let Some((task, lease, first_der, mut first)) = started else {
+            return SigResult { facts, machinery: Some(format!("signal-reload: the server could not be started in {SIG_START_ATTEMPTS} attempts: {last_fail}")) };
+        };
+        counters.evals.fetch_add(1, Ordering::Relaxed);
+        facts.push(("server.started".into(), json!(true)));
+        facts.push(("initial.sees".into(), json!(label(&first_der))));
+        let port = lease.port;
+        let mut ok = true;
+        if label(&first_der) != "A" {
+            sink.viol("sigreload.initial-identity".into(), format!("the freshly started server presents identity {} instead of the configured one; {c:?}", label(&first_der)), replay.clone());
+            ok = false;
+        }
+
+        // ---- the history
+        let mut machinery = None;
+        let mut cur = "A";
+        for (i, sym) in c.history.iter().enumerate() {
+            if !ok {
+                break;
+            }
+            let step = format!("step{}.{sym}", i + 1);
+            match sym.as_str() {
+                "good-B" => {
+                    write(&live_cert, &idb.cert_pem);
+                    write(&live_key, &idb.key_pem);
+                }
+                "good-A" => {
+                    write(&live_cert, &ida.cert_pem);
+                    write(&live_key, &ida.key_pem);
+                }
+                // the first half of a key file: no END line, not a usable key
+                "bad-key" => write(&live_key, &ida.key_pem[..ida.key_pem.len() / 2]),
+                "bad-cert" => write(&live_cert, "this is not a certificate\n"),
+                other => panic!("unknown history step {other}"),
+            }
+            let expected = match sym.as_str() {
+                "good-B" => "B",
+                "good-A" => "A",
+                _ => cur,
+            };
+            // never raise SIGUSR1 unless a handler is in place (the default action kills the process)
+            if !sigusr1_has_handler() {
+                machinery = Some("signal-reload: no SIGUSR1 handler is installed although the server is up; not raising the signal".to_string());
+                break;
+            }
+            if !raise_sigusr1() {
+                machinery = Some("signal-reload: raise(SIGUSR1) failed".to_string());
+                break;
+            }
+            let done: String = c.history[..=i].join(", ");
+            if expected != cur {
+                // a new identity must show up on new connections before the deadline
+                let deadline = Instant::now() + SIG_APPLY_DEADLINE;
+                let mut last;
+                loop {
+                    let o = tcp_observe(port, &ccfg).await;
+                    counters.evals.fetch_add(1, Ordering::Relaxed);
+                    last = match &o {
+                        Ok((der, _)) => format!("identity {}", label(der)),
+                        Err(e) => format!("no connection ({e})"),
+                    };
+                    if matches!(&o, Ok((der, _)) if label(der) == expected) {
+                        break;
+                    }
+                    if Instant::now() >= deadline {
+                        ok = false;
+                        break;
+                    }
+                    tokio::time::sleep(Duration::from_millis(20)).await;
+                }
+                facts.push((format!("{step}.applied"), json!(ok)));
+                if !ok {
+                    sink.viol(
+                        "sigreload.not-applied".into(),
+                        format!("running server_main, files rewritten + SIGUSR1 for each of [{done}]: {SIG_APPLY_DEADLINE:?} after the last signal new connections still get {last}, expected identity {expected} (the last well-formed certificate/key pair written); client CA {}", if c.client_ca { "set" } else { "none" }),
+                        replay.clone(),
+                    );
+                }
+            } else {
+                // nothing may change: failed reload, or reload of the identity already in force
+                tokio::time::sleep(SIG_SETTLE).await;
+                let o = tcp_observe(port, &ccfg).await;
+                counters.evals.fetch_add(1, Ordering::Relaxed);
+                let seen = match &o {
+                    Ok((der, _)) => label(der).to_string(),
+                    Err(_) => "no-connection".to_string(),
+                };
+                facts.push((format!("{step}.sees"), json!(seen)));
+                if seen != expected {
+                    ok = false;
+                    sink.viol(
+                        "sigreload.identity-lost".into(),
+                        format!("running server_main, files rewritten + SIGUSR1 for each of [{done}]: the identity in force must still be {expected}, but a new connection gets {}; client CA {}", match &o { Ok(_) => format!("identity {seen}"), Err(e) => format!("no connection ({e})") }, if c.client_ca { "set" } else { "none" }),
+                        replay.clone(),
+                    );
+                }
+            }
+            cur = expected;
+        }
+
+        // ---- the connection made before the first reload is still served
+        let alive = tokio::time::timeout(Duration::from_secs(5), async {
+            let mut b = [0u8; 5];
+            first.write_all(b"GET / HTTP/1.1\r\nHost: x\r\n\r\n").await.is_ok() && first.flush().await.is_ok() && first.read_exact(&mut b).await.is_ok() && &b == b"HTTP/"
+        })
+        .await
+        .unwrap_or(false);
+        counters.evals.fetch_add(1, Ordering::Relaxed);
+        facts.push(("established.alive".into(), json!(alive)));
+        if !alive && machinery.is_none() {
+            sink.viol("sigreload.established-connection-disturbed".into(), format!("the connection established before the first SIGUSR1 no longer gets an HTTP response after the history {:?}; client CA {}", c.history, if c.client_ca { "set" } else { "none" }), replay.clone());
+        }
+        if task.is_finished() {
+            if let Err(je) = task.await {
+                if je.is_panic() {
+                    sink.viol("sigreload.panic".into(), format!("server_main panicked during the history {:?}: {}", c.history, panic_text(&*je.into_panic())), replay);
+                }
+            }
+        } else {
+            task.abort();
+        }
+        drop(lease);
+        SigResult { facts, machinery }
+    })
+    .await
+}
+
+/// Runs one history in a runtime of its own; dropping it removes the server's tasks (listener, SIGUSR1 task).
+fn exec_sig_case(pki: &Pki, c: &SigCase, sink: &Sink<'_>, counters: &Counters) -> Result<SigResult, String> {
+    install_sigusr1_guard()?;
+    let rt = runtime();
+    let r = rt.block_on(run_sig_case(pki, c, sink, counters));
+    drop(rt);
+    match r {
+        Ok(res) => Ok(res),
+        Err(p) => {
+            sink.viol("sigreload.panic".into(), format!("panic in signal-reload history {c:?}: {p}"), c.to_json());
+            Ok(SigResult { facts: vec![("panicked".into(), json!(p))], machinery: None })
+        }
+    }
+}
+
+// ---------------------------------------------------------------------------------------
 // Which name does the real client ask for?  (`--tls-server-name` > `--hostname` > URL host)
 // ---------------------------------------------------------------------------------------
 
@@ -1266,8 +1630,22 @@ fn replay(args: &Args, v: &Value, mut rep: Report) -> Report {
     let rt = runtime();
     let counters = Counters { evals: AtomicU64::new(0) };
     let mut observations = Vec::new();
+    let mut machinery: Option<String> = None;
     for _ in 0..2 {
         let o = match v["kind"].as_str() {
+            Some("signal-reload") => {
+                let c = SigCase::from_json(v);
+                match exec_sig_case(&pki, &c, &sink, &counters) {
+                    Ok(res) => {
+                        machinery = machinery.or(res.machinery);
+                        json!({"verdict": res.facts})
+                    }
+                    Err(m) => {
+                        machinery = Some(m);
+                        json!({"verdict": {"not_run": true}})
+                    }
+                }
+            }
             Some("matrix") => {
                 let c = MatrixCase::from_json(v);
                 let o = rt.block_on(run_matrix_case(&pki, &c));
@@ -1326,6 +1704,9 @@ fn replay(args: &Args, v: &Value, mut rep: Report) -> Report {
     if observations[0]["verdict"] != observations[1]["verdict"] {
         rep.machinery_error = Some(format!("replay is not deterministic: {} vs {}", observations[0]["verdict"], observations[1]["verdict"]));
     }
+    if let Some(m) = machinery {
+        rep.machinery_error = Some(m);
+    }
     rep.distinct_nontrivial = 1;
     rep.rule = "replay of one recorded configuration, executed twice with fresh key material; observations must agree".into();
     rep.extra.insert("replayed".into(), v.clone());
@@ -1347,7 +1728,7 @@ pub fn run(args: &Args) -> Report {
     }
     let thorough = args.thorough();
     let algs: Vec<&str> = if thorough { ALGS.to_vec() } else { vec!["p256"] };
-    rep.rule = "complete product: key algorithm x server certificate {trusted-CA leaf, other-CA leaf, self-signed, expired trusted-CA leaf} x (certificate name, requested name) x skip-verify x roots given to the client {trusted CA, other CA, none/system} x client certificate {none, client-CA, other-CA, self-signed} x server client-CA {none, set} x server-config constructor; plus harness-client probes (TLS1.2/1.3) of every server configuration, all reload histories A->B (identities, client-CA before/after, reload method), a client-CA file without a usable certificate {empty, key only, not PEM, truncated PEM} at start-up (every constructor) and at reload (every method): refusing is fine, admitting a client without a certificate under a CA is not, and the real client main loop over loopback TCP for every (--hostname, --tls-server-name, certificate name, skip-verify) combination; a case is distinct when its configuration tuple is distinct".into();
+    rep.rule = "complete product: key algorithm x server certificate {trusted-CA leaf, other-CA leaf, self-signed, expired trusted-CA leaf} x (certificate name, requested name) x skip-verify x roots given to the client {trusted CA, other CA, none/system} x client certificate {none, client-CA, other-CA, self-signed} x server client-CA {none, set} x server-config constructor; plus harness-client probes (TLS1.2/1.3) of every server configuration, all reload histories A->B (identities, client-CA before/after, reload method), a client-CA file without a usable certificate {empty, key only, not PEM, truncated PEM} at start-up (every constructor) and at reload (every method): refusing is fine, admitting a client without a certificate under a CA is not, and the real client main loop over loopback TCP for every (--hostname, --tls-server-name, certificate name, skip-verify) combination; reload histories through SIGUSR1 on a running server_main (loopback TCP, one after the other): starting from identity A, each step rewrites the live --tls-cert/--tls-key files as one of {good-B, good-A, bad-key = key file truncated, bad-cert = certificate file not PEM} and raises SIGUSR1, then a harness client that accepts any certificate opens a new connection: it must be shown the last well-formed identity written so far (a new identity within 3 s; an unchanged one is looked at once after 300 ms), and the connection made before the first signal must still get an HTTP response at the end; quick tier: every history of length 1..=2 and, of length 3, those whose first step is bad-key/bad-cert and whose last step is good-A/good-B, plus [good-B, bad-key, good-A]; thorough tier: every history of length 1..=4, and every history of length 1..=2 again with a client CA configured and for every further key algorithm; a case is distinct when its configuration tuple is distinct".into();
 
     let t0 = std::time::Instant::now();
     let pkis: Vec<(String, Pki)> = algs.iter().map(|a| ((*a).to_string(), Pki::new(a))).collect();
@@ -1359,7 +1740,12 @@ pub fn run(args: &Args) -> Report {
     let reloads = reload_domain(&algs);
     let names = name_domain(&algs);
     let badcas = bad_ca_domain(&algs);
-    let distinct = badcas.len() + matrix.iter().collect::<HashSet<_>>().len() + probes.iter().collect::<HashSet<_>>().len() + reloads.iter().collect::<HashSet<_>>().len() + names.iter().collect::<HashSet<_>>().len();
+    let sigs = sig_domain(&algs, thorough);
+    let n_sig_done = AtomicU64::new(0);
+    let n_sig_steps_unchanged = AtomicU64::new(0);
+    let sig_machinery: Mutex<Option<String>> = Mutex::new(None);
+    let sig_wall: Mutex<f64> = Mutex::new(0.0);
+    let distinct = sigs.iter().collect::<HashSet<_>>().len() + badcas.len() + matrix.iter().collect::<HashSet<_>>().len() + probes.iter().collect::<HashSet<_>>().len() + reloads.iter().collect::<HashSet<_>>().len() + names.iter().collect::<HashSet<_>>().len();
     let n_name_ok = AtomicU64::new(0);
     let n_name_refused = AtomicU64::new(0);
     let n_badca_refused_start = AtomicU64::new(0);
@@ -1381,8 +1767,12 @@ pub fn run(args: &Args) -> Report {
         R(usize),
         N(usize),
         B(usize),
+        /// all signal-reload histories, one after the other (SIGUSR1 is process-wide)
+        S,
     }
     let mut jobs: Vec<Job> = Vec::new();
+    // first, so that it overlaps with everything else (it mostly waits)
+    jobs.push(Job::S);
     jobs.extend((0..matrix.len()).map(Job::M));
     jobs.extend((0..probes.len()).map(Job::P));
     jobs.extend((0..reloads.len()).map(Job::R));
@@ -1463,6 +1853,29 @@ pub fn run(args: &Args) -> Report {
                                 Err(p) => sink.viol("badca.panic".into(), format!("panic with an unusable client CA {c:?}: {p}"), c.to_json()),
                             }
                         }
+                        Job::S => {
+                            let t = std::time::Instant::now();
+                            for (k, c) in sigs.iter().enumerate() {
+                                match exec_sig_case(pki_of(&c.alg), c, &sink, &counters) {
+                                    Ok(res) => {
+                                        n_sig_done.fetch_add(1, Ordering::Relaxed);
+                                        n_sig_steps_unchanged.fetch_add(res.facts.iter().filter(|(k, _)| k.ends_with(".sees") && k.starts_with("step")).count() as u64, Ordering::Relaxed);
+                                        if c.history == ["bad-key", "good-B"] && !c.client_ca && k < 84 {
+                                            samples.lock().unwrap().push(json!({"case": c.to_json(), "observed": res.facts}));
+                                        }
+                                        if let Some(m) = res.machinery {
+                                            *sig_machinery.lock().unwrap() = Some(m);
+                                            break;
+                                        }
+                                    }
+                                    Err(m) => {
+                                        *sig_machinery.lock().unwrap() = Some(m);
+                                        break;
+                                    }
+                                }
+                            }
+                            *sig_wall.lock().unwrap() = t.elapsed().as_secs_f64();
+                        }
                         Job::R(k) => {
                             let c = &reloads[k];
                             let pki = pki_of(&c.alg);
@@ -1492,6 +1905,13 @@ pub fn run(args: &Args) -> Report {
     rep.bounds.insert("client_name_selection_cases".into(), json!(names.len()));
     rep.bounds.insert("unusable_client_ca_cases".into(), json!(badcas.len()));
     rep.bounds.insert("unusable_client_ca_files".into(), json!(BAD_CA_KINDS));
+    rep.bounds.insert("signal_reload_histories".into(), json!(sigs.len()));
+    rep.bounds.insert("signal_reload_alphabet".into(), json!(SIG_ALPHABET));
+    rep.bounds.insert("signal_reload_history_length".into(), json!(if thorough { "1..=4 (all); 1..=2 with client CA and per further key algorithm" } else { "1..=2 (all); 3 (first step bad-key/bad-cert and last step good-A/good-B, plus [good-B, bad-key, good-A])" }));
+    rep.bounds.insert("signal_reload_deadlines_ms".into(), json!({"new_identity_visible": SIG_APPLY_DEADLINE.as_millis() as u64, "settle_before_unchanged_look": SIG_SETTLE.as_millis() as u64, "server_start": SIG_START_DEADLINE.as_millis() as u64}));
+    rep.extra.insert("signal_reload_histories_run".into(), json!(n_sig_done.load(Ordering::Relaxed)));
+    rep.extra.insert("signal_reload_steps_expecting_no_change".into(), json!(n_sig_steps_unchanged.load(Ordering::Relaxed)));
+    rep.extra.insert("signal_reload_wall_s".into(), json!(*sig_wall.lock().unwrap()));
     rep.extra.insert("unusable_client_ca_refused_at_start".into(), json!(n_badca_refused_start.load(Ordering::Relaxed)));
     rep.extra.insert("client_name_expected_accept".into(), json!(n_name_ok.load(Ordering::Relaxed)));
     rep.extra.insert("client_name_expected_refuse".into(), json!(n_name_refused.load(Ordering::Relaxed)));
@@ -1510,7 +1930,8 @@ pub fn run(args: &Args) -> Report {
         rep.sample(s);
     }
     rep.assumptions.push("the system trust store does not contain the CAs generated for this run (roots = \"system\" means no --tls-ca)".into());
-    rep.assumptions.push("transport is an in-memory duplex pipe; TCP-level effects (resets, partial writes) are out of scope of this property".into());
+    rep.assumptions.push("transport is an in-memory duplex pipe (loopback TCP in the client-name and signal-reload passes); TCP-level effects (resets, partial writes) are out of scope of this property".into());
+    rep.assumptions.push("signal-reload pass: SIGUSR1 is raised by the process on itself (raise) only after the server accepted a TLS connection, i.e. after its handler task exists; the reload is given 3 s to become visible".into());
     rep.assumptions.push("the subject client is TLS 1.3 only (ECH grease); TLS 1.2 client authentication is exercised by the harness-owned probing client".into());
     rep.assumptions.push("certificate chains have depth 1 (leaf directly under the CA); name matching is checked for one DNS mismatch in each direction (and IP names in the thorough tier)".into());
     // vacuity guard: the domain must contain configurations of every expected outcome (success,
@@ -1528,6 +1949,11 @@ pub fn run(args: &Args) -> Report {
     }
     if rep.evaluations < (matrix.len() + probes.len() + reloads.len() + names.len()) as u64 {
         rep.machinery_error = Some("not every case was executed".into());
+    }
+    if let Some(m) = sig_machinery.into_inner().unwrap() {
+        rep.machinery_error = Some(m);
+    } else if n_sig_done.load(Ordering::Relaxed) != sigs.len() as u64 {
+        rep.machinery_error = Some(format!("signal-reload: {} of {} histories were executed", n_sig_done.load(Ordering::Relaxed), sigs.len()));
     }
     rep
 }
